@@ -31,6 +31,14 @@ func dateCrit(tag string, denom string, signer sdk.AccAddress, dc *baskettypes.D
 	return Msg(fmt.Sprintf("UpdateDateCriteria(%s,%s,%s)", n(signer), denom, tag), &baskettypes.MsgUpdateDateCriteria{Authority: signer.String(), Denom: denom, NewDateCriteria: dc})
 }
 
+// KYR is the years-in-the-past basket of the C10 seed.
+const KYR = "eco.uC.KYR"
+
+// YearsBasket creates a basket admitting class C01 with a years-in-the-past criterion.
+func YearsBasket(name string, years uint32) *explore.Action {
+	return mkBasket(name, true, &baskettypes.DateCriteria{YearsInThePast: years}, "C01")
+}
+
 // C11 batch start dates, chosen on / just before / after every criterion
 // boundary at the scenario's block times. Creation order is deliberately not
 // date order, so denom order (sequence numbers) differs from date order.
